@@ -769,4 +769,156 @@ example : (letI := fieldNum ℚ id; ((⟨⟨-1, -1, -1⟩, ⟨1/2, 1/2, 1⟩⟩ 
   decide +kernel
 
 
+
+/-! ## `clip_segment_segment` (2-D) -/
+
+/-- **C17 (`clip_segment_segment`, 2-D)**: with `π` the projection on the direction of `seg1` and `seg2` not perpendicular to
+`seg1` (`π(a2) ≠ π(b2)`; on perpendicular input the floating-point code divides `0/0`), the function returns `None` exactly when
+the projected ranges `[0, |b1-a1|²]` and `π(seg2)` are disjoint; otherwise both clipping pairs `(p1, p2)` have `p1 ∈ seg1`,
+`p2 ∈ seg2`, `π(p1) = π(p2)`, the first pair sits at the lower end `max(0, min π(seg2))` of the overlap and the second at its
+upper end `min(|b1-a1|², max π(seg2))`; feature codes `0`/`2` assert that the point is the first/second vertex of its segment. -/
+theorem clip_segment_segment_spec (a1 b1 a2 b2 : V2 K) (hperp : proj1 a1 b1 a2 ≠ proj1 a1 b1 b2) :
+    letI := fieldNum K sq
+    match clipSegmentSegment a1 b1 a2 b2 with
+    | none => proj1 a1 b1 b1 < min (proj1 a1 b1 a2) (proj1 a1 b1 b2) ∨ max (proj1 a1 b1 a2) (proj1 a1 b1 b2) < 0
+    | some (ca, cb) =>
+      max 0 (min (proj1 a1 b1 a2) (proj1 a1 b1 b2)) ≤ min (proj1 a1 b1 b1) (max (proj1 a1 b1 a2) (proj1 a1 b1 b2)) ∧
+      (Segment2.mk a1 b1).Mem ca.p1 ∧ (Segment2.mk a2 b2).Mem ca.p2 ∧ proj1 a1 b1 ca.p1 = proj1 a1 b1 ca.p2 ∧
+        proj1 a1 b1 ca.p1 = max 0 (min (proj1 a1 b1 a2) (proj1 a1 b1 b2)) ∧
+      (Segment2.mk a1 b1).Mem cb.p1 ∧ (Segment2.mk a2 b2).Mem cb.p2 ∧ proj1 a1 b1 cb.p1 = proj1 a1 b1 cb.p2 ∧
+        proj1 a1 b1 cb.p1 = min (proj1 a1 b1 b1) (max (proj1 a1 b1 a2) (proj1 a1 b1 b2)) ∧
+      (ca.f1 = 0 → ca.p1 = a1) ∧ (ca.f1 = 2 → ca.p1 = b1) ∧ (ca.f2 = 0 → ca.p2 = a2) ∧ (ca.f2 = 2 → ca.p2 = b2) ∧
+      (cb.f1 = 0 → cb.p1 = a1) ∧ (cb.f1 = 2 → cb.p1 = b1) ∧ (cb.f2 = 0 → cb.p2 = a2) ∧ (cb.f2 = 2 → cb.p2 = b2) := by
+  letI : Num K := fieldNum K sq
+  have hsq : (0 : K) ≤ (b1.sub a1).normSq := by
+    simp only [V2.normSq, V2.dot, V2.sub]; nlinarith [mul_self_nonneg (b1.x - a1.x), mul_self_nonneg (b1.y - a1.y)]
+  have e11 : (b1.sub a1).normSq = proj1 a1 b1 b1 := by simp only [V2.normSq, V2.dot, V2.sub, proj1]
+  have e20 : (a2.sub a1).dot (b1.sub a1) = proj1 a1 b1 a2 := by simp only [V2.dot, V2.sub, proj1]
+  have e21 : (b2.sub a1).dot (b1.sub a1) = proj1 a1 b1 b2 := by simp only [V2.dot, V2.sub, proj1]
+  have ea : proj1 a1 b1 a1 = 0 := by simp only [proj1]; ring
+  simp only [clipSegmentSegment, e11, e20, e21]
+  rw [e11] at hsq
+  have hns : ¬ (proj1 a1 b1 b1 < 0) := not_lt.mpr hsq
+  simp only [hns, decide_false, Bool.false_eq_true, if_false]
+  generalize hS : proj1 a1 b1 b1 = S at *
+  generalize hA : proj1 a1 b1 a2 = A at *
+  generalize hB : proj1 a1 b1 b2 = B at *
+  by_cases hsw : B < A
+  · have hlt : B < A := hsw
+    have emin : min A B = B := min_eq_right hlt.le
+    have emax : max A B = A := max_eq_left hlt.le
+    simp only [hsw, decide_true, if_true, emin, emax]
+    split_ifs with hnone hca hcb hcb
+    · simp only [Bool.or_eq_true, decide_eq_true_eq] at hnone
+      exact hnone
+    all_goals simp only [Bool.or_eq_true, decide_eq_true_eq, not_or, not_lt] at hnone
+    all_goals obtain ⟨hov1, hov2⟩ := hnone
+    all_goals obtain ⟨ca1, ca2⟩ := ss_ca sq a1 b1 b2 a2 S B A hS hB hA hlt hov1 hov2
+    all_goals obtain ⟨cb1, cb2⟩ := ss_cb sq a1 b1 b2 a2 S B A hS hB hA hlt hov1 hov2
+    · obtain ⟨⟨t, t0, t1, et⟩, pa, ma⟩ := ca1 hca
+      obtain ⟨⟨u, u0, u1, eu⟩, pb, mb⟩ := cb1 hcb
+      simp only []
+      refine ⟨by rw [← ma, ← mb]; exact hlt.le, by rw [et]; exact mem_segPt2 sq a1 b1 t t0 t1, ?_, by rw [pa, hB], by rw [pa]; exact ma,
+        by rw [eu]; exact mem_segPt2 sq a1 b1 u u0 u1, ?_, by rw [pb, hA], by rw [pb]; exact mb, ?_⟩
+      · have := mem_segPt2_rev sq a2 b2 0 (le_refl _) zero_le_one
+        simpa [segPt2] using this
+      · have := mem_segPt2_rev sq a2 b2 1 zero_le_one (le_refl _)
+        simpa [segPt2] using this
+      · simp
+    · obtain ⟨⟨t, t0, t1, et⟩, pa, ma⟩ := ca1 hca
+      obtain ⟨⟨u, u0, u1, eu⟩, pb, mb⟩ := cb2 hcb
+      simp only []
+      refine ⟨by rw [← ma, ← mb]; linarith, by rw [et]; exact mem_segPt2 sq a1 b1 t t0 t1, ?_, by rw [pa, hB], by rw [pa]; exact ma,
+        ?_, by rw [eu]; exact mem_segPt2_rev sq a2 b2 u u0 u1, by rw [pb, hS], by rw [hS]; exact mb, ?_⟩
+      · have := mem_segPt2_rev sq a2 b2 0 (le_refl _) zero_le_one
+        simpa [segPt2] using this
+      · have := mem_segPt2 sq a1 b1 1 zero_le_one (le_refl _)
+        simpa [segPt2] using this
+      · simp
+    · obtain ⟨⟨t, t0, t1, et⟩, pa, ma⟩ := ca2 hca
+      obtain ⟨⟨u, u0, u1, eu⟩, pb, mb⟩ := cb1 hcb
+      simp only []
+      refine ⟨by rw [← ma, ← mb]; linarith, ?_, by rw [et]; exact mem_segPt2_rev sq a2 b2 t t0 t1, by rw [pa, ea], by rw [ea]; exact ma,
+        by rw [eu]; exact mem_segPt2 sq a1 b1 u u0 u1, ?_, by rw [pb, hA], by rw [pb]; exact mb, ?_⟩
+      · have := mem_segPt2 sq a1 b1 0 (le_refl _) zero_le_one
+        simpa [segPt2] using this
+      · have := mem_segPt2_rev sq a2 b2 1 zero_le_one (le_refl _)
+        simpa [segPt2] using this
+      · simp
+    · obtain ⟨⟨t, t0, t1, et⟩, pa, ma⟩ := ca2 hca
+      obtain ⟨⟨u, u0, u1, eu⟩, pb, mb⟩ := cb2 hcb
+      simp only []
+      refine ⟨by rw [← ma, ← mb]; exact hsq, ?_, by rw [et]; exact mem_segPt2_rev sq a2 b2 t t0 t1, by rw [pa, ea], by rw [ea]; exact ma,
+        ?_, by rw [eu]; exact mem_segPt2_rev sq a2 b2 u u0 u1, by rw [pb, hS], by rw [hS]; exact mb, ?_⟩
+      · have := mem_segPt2 sq a1 b1 0 (le_refl _) zero_le_one
+        simpa [segPt2] using this
+      · have := mem_segPt2 sq a1 b1 1 zero_le_one (le_refl _)
+        simpa [segPt2] using this
+      · simp
+  · have hlt : A < B := lt_of_le_of_ne (not_lt.mp hsw) hperp
+    have emin : min A B = A := min_eq_left hlt.le
+    have emax : max A B = B := max_eq_right hlt.le
+    simp only [hsw, decide_false, Bool.false_eq_true, if_false, emin, emax]
+    split_ifs with hnone hca hcb hcb
+    · simp only [Bool.or_eq_true, decide_eq_true_eq] at hnone
+      exact hnone
+    all_goals simp only [Bool.or_eq_true, decide_eq_true_eq, not_or, not_lt] at hnone
+    all_goals obtain ⟨hov1, hov2⟩ := hnone
+    all_goals obtain ⟨ca1, ca2⟩ := ss_ca sq a1 b1 a2 b2 S A B hS hA hB hlt hov1 hov2
+    all_goals obtain ⟨cb1, cb2⟩ := ss_cb sq a1 b1 a2 b2 S A B hS hA hB hlt hov1 hov2
+    · obtain ⟨⟨t, t0, t1, et⟩, pa, ma⟩ := ca1 hca
+      obtain ⟨⟨u, u0, u1, eu⟩, pb, mb⟩ := cb1 hcb
+      simp only []
+      refine ⟨by rw [← ma, ← mb]; exact hlt.le, by rw [et]; exact mem_segPt2 sq a1 b1 t t0 t1, ?_, by rw [pa, hA], by rw [pa]; exact ma,
+        by rw [eu]; exact mem_segPt2 sq a1 b1 u u0 u1, ?_, by rw [pb, hB], by rw [pb]; exact mb, ?_⟩
+      · have := mem_segPt2 sq a2 b2 0 (le_refl _) zero_le_one
+        simpa [segPt2] using this
+      · have := mem_segPt2 sq a2 b2 1 zero_le_one (le_refl _)
+        simpa [segPt2] using this
+      · simp
+    · obtain ⟨⟨t, t0, t1, et⟩, pa, ma⟩ := ca1 hca
+      obtain ⟨⟨u, u0, u1, eu⟩, pb, mb⟩ := cb2 hcb
+      simp only []
+      refine ⟨by rw [← ma, ← mb]; linarith, by rw [et]; exact mem_segPt2 sq a1 b1 t t0 t1, ?_, by rw [pa, hA], by rw [pa]; exact ma,
+        ?_, by rw [eu]; exact mem_segPt2 sq a2 b2 u u0 u1, by rw [pb, hS], by rw [hS]; exact mb, ?_⟩
+      · have := mem_segPt2 sq a2 b2 0 (le_refl _) zero_le_one
+        simpa [segPt2] using this
+      · have := mem_segPt2 sq a1 b1 1 zero_le_one (le_refl _)
+        simpa [segPt2] using this
+      · simp
+    · obtain ⟨⟨t, t0, t1, et⟩, pa, ma⟩ := ca2 hca
+      obtain ⟨⟨u, u0, u1, eu⟩, pb, mb⟩ := cb1 hcb
+      simp only []
+      refine ⟨by rw [← ma, ← mb]; linarith, ?_, by rw [et]; exact mem_segPt2 sq a2 b2 t t0 t1, by rw [pa, ea], by rw [ea]; exact ma,
+        by rw [eu]; exact mem_segPt2 sq a1 b1 u u0 u1, ?_, by rw [pb, hB], by rw [pb]; exact mb, ?_⟩
+      · have := mem_segPt2 sq a1 b1 0 (le_refl _) zero_le_one
+        simpa [segPt2] using this
+      · have := mem_segPt2 sq a2 b2 1 zero_le_one (le_refl _)
+        simpa [segPt2] using this
+      · simp
+    · obtain ⟨⟨t, t0, t1, et⟩, pa, ma⟩ := ca2 hca
+      obtain ⟨⟨u, u0, u1, eu⟩, pb, mb⟩ := cb2 hcb
+      simp only []
+      refine ⟨by rw [← ma, ← mb]; exact hsq, ?_, by rw [et]; exact mem_segPt2 sq a2 b2 t t0 t1, by rw [pa, ea], by rw [ea]; exact ma,
+        ?_, by rw [eu]; exact mem_segPt2 sq a2 b2 u u0 u1, by rw [pb, hS], by rw [hS]; exact mb, ?_⟩
+      · have := mem_segPt2 sq a1 b1 0 (le_refl _) zero_le_one
+        simpa [segPt2] using this
+      · have := mem_segPt2 sq a1 b1 1 zero_le_one (le_refl _)
+        simpa [segPt2] using this
+      · simp
+
+
+/-! non-vacuity: two parallel overlapping segments (second one reversed): clip points at `x = 1` and `x = 2`; disjoint projections -/
+example : (letI := fieldNum ℚ id; (clipSegmentSegment (⟨0, 0⟩ : V2 ℚ) ⟨2, 0⟩ ⟨3, 1⟩ ⟨1, 1⟩).map fun c =>
+    [c.1.p1.x, c.1.p2.x, c.2.p1.x, c.2.p2.x]) = some [1, 1, 2, 2] := by
+  decide +kernel
+example : (letI := fieldNum ℚ id; (clipSegmentSegment (⟨0, 0⟩ : V2 ℚ) ⟨2, 0⟩ ⟨3, 1⟩ ⟨1, 1⟩).map fun c =>
+    [c.1.f1, c.1.f2, c.2.f1, c.2.f2]) = some [1, 2, 2, 1] := by
+  decide +kernel
+example : (letI := fieldNum ℚ id; (clipSegmentSegment (⟨0, 0⟩ : V2 ℚ) ⟨2, 0⟩ ⟨3, 1⟩ ⟨5, 1⟩).isNone) = true := by
+  decide +kernel
+example : proj1 (⟨0, 0⟩ : V2 ℚ) ⟨2, 0⟩ ⟨3, 1⟩ ≠ proj1 (⟨0, 0⟩ : V2 ℚ) ⟨2, 0⟩ ⟨1, 1⟩ := by
+  simp [proj1]
+
+
 end C17
